@@ -52,6 +52,9 @@ type Net struct {
 	ErrReply func(addr string, code int32, req []byte) []byte
 	// MultiTask disables the bookkeeping that would share mutable state between tasks.
 	MultiTask bool
+	// OnDial, when set, sees every connection attempt before it is answered (engines use it to
+	// stop a run whose client dials without end).
+	OnDial func(proto, addr string)
 }
 
 func NewNet() *Net {
@@ -116,6 +119,9 @@ func (n *Net) Dial(network, address string, timeout time.Duration) (simnet.Sessi
 	proto := network
 	if len(proto) > 3 {
 		proto = proto[:3]
+	}
+	if n.OnDial != nil {
+		n.OnDial(proto, address)
 	}
 	b := n.beh(proto, address)
 	if _, ok := n.Resp[address]; !ok && b.Kind != "refuse" && b.Kind != "dialtimeout" {
